@@ -105,6 +105,8 @@ def pregen(ctx):
 BINOPS = {'add': ('Add', operator.add), 'sub': ('Sub', operator.sub), 'mul': ('Mul', operator.mul),
           'div': ('Div', operator.truediv), 'floordiv': ('FloorDiv', operator.floordiv), 'mod': ('Mod', operator.mod),
           'pow': ('Pow', operator.pow)}
+IOPS = {'add': operator.iadd, 'sub': operator.isub, 'mul': operator.imul, 'div': operator.itruediv,
+        'floordiv': operator.ifloordiv, 'mod': operator.imod, 'pow': operator.ipow}
 CMPOPS = {'lt': ('CLt', operator.lt), 'le': ('CLe', operator.le), 'gt': ('CGt', operator.gt), 'ge': ('CGe', operator.ge),
           'eq': ('CEq', operator.eq), 'ne': ('CNe', operator.ne)}
 UNOPS = {'neg': ('Neg', operator.neg), 'abs': ('Abs', abs), 'floor': ('Floor', math.floor), 'ceil': ('Ceil', math.ceil),
@@ -548,6 +550,19 @@ def run_impl(case):
             return _outcome(lambda: [bool(t == other), hash(t) == hash(other)])
         fn = (BINOPS if k == 'bin' else CMPOPS)[case['op']][1]
         o = _outcome((lambda: fn(other, t)) if case['swap'] else (lambda: fn(t, other)))
+        if k == 'bin' and not case['swap'] and 'ret' in o:
+            # time values are immutable: the augmented assignment on a second name for the same object (u = t; u -= x,
+            # also through +t, which may return the object itself) must leave t, and its hash, as they were
+            keep, h0 = TimeType.from_fraction(tf.numerator, tf.denominator), hash(t)
+            try:
+                u = t
+                u = IOPS[case['op']](u, other)
+                w = +t
+                w = IOPS[case['op']](w, other)
+                if not (t == keep) or hash(t) != h0:
+                    return {'crash': 'left operand changed by the augmented assignment %s on another name for it' % case['op']}
+            except Exception as e:
+                return {'crash': 'augmented assignment %s raises %s where the binary operator returns' % (case['op'], type(e).__name__)}
         if 'ret' in o:
             if k == 'cmp':
                 o['ret'] = bool(o['ret']) if isinstance(o['ret'], (bool,)) or type(o['ret']).__name__ == 'bool_' else \
